@@ -16,8 +16,8 @@ from bctmc.tally import Tally
 
 PROPERTY = 'C02'
 RULE = ('randomised detectors: every labelled 4-node graph with positive weight (binary), every 3-node digraph, 4-node '
-        'signed patterns (also with self-connections of either sign), a few named 5-6 node graphs; gamma in {1, 1.25}; every built-in objective / qtype; initial '
-        'partition none or one of a fixed subset of the 15 set partitions (all 15 in thorough); hierarchy in {False, True}; '
+        'signed patterns (also with self-connections of either sign), a few named 5-6 node graphs; gamma in {1, 1.25} (subsets also with 0.5 and 3); probtune p in {0, 0.45, 1}; every built-in objective / qtype; initial '
+        'partition none or one of a fixed subset of the 15 set partitions (all 15 in thorough), subsets also with zero-based, gapped and larger-than-n labels and with every set partition under reversed / cyclically shifted labels; hierarchy in {False, True}; '
         'ALL visiting orders at every sweep; deterministic modularity_und/_dir/_und_sign: every graph n<=4 (5 thorough) / '
         'digraph n<=3 (4 thorough) x kci in {None, every set partition} x gamma, and the structured 7-10 node family of bctmc/named.py x 4 partitions; non-trivial = configuration with >= 2 '
         'distinct reachable (partition, q) outcomes, or (deterministic) a graph with >= 2 components of the answer')
@@ -118,6 +118,60 @@ def catalogue(thorough):
         if ci is None:
             add('modularity_louvain_und', tag, W, gamma=1, hierarchy=True)
             add('modularity_louvain_und', tag, W, gamma=1, hierarchy=False)
+    # boundary values of the scalar parameters: p in {0, 1}; gamma below 1 and far above 1
+    for tag, W in sg3:
+        for pv in (0, 1):
+            add('modularity_probtune_und_sign', tag, W, gamma=1, qtype='sta', ci=None, p=pv)
+        for g in (0.5, 3):
+            add('modularity_louvain_und_sign', tag, W, gamma=g, qtype='sta')
+            add('modularity_finetune_und_sign', tag, W, gamma=g, qtype='smp', ci=None)
+            add('community_louvain', tag, W, gamma=g, B='negative_sym', ci=None)
+    for tag, W in (und4[::7] if not thorough else und4[::3]):
+        for g in (0.5, 3):
+            add('community_louvain', tag, W, gamma=g, B='potts', ci=None)
+            add('community_louvain', tag, W, gamma=g, B='modularity', ci=None)
+            add('modularity_louvain_und', tag, W, gamma=g, hierarchy=True)
+            add('modularity_finetune_und', tag, W, gamma=g, ci=None)
+        # starting partitions whose labels are not 1..k: zero-based, with gaps, larger than n
+        for ci in ([0, 0, 1, 1], [7, 30, 7, 30], [5, 9, 9, 9]):
+            add('community_louvain', tag, W, gamma=1, B='modularity', ci=ci)
+            add('modularity_finetune_und', tag, W, gamma=1, ci=ci)
+    # every set partition as a start, with its labels permuted (reversed / cyclically shifted): a start is a labelling,
+    # not a canonical restricted-growth string
+    def permuted_labellings(parts):
+        out = []
+        for P in parts:
+            k = max(P)
+            for f in (lambda c: k + 1 - c, lambda c: c % k + 1):
+                Q = [f(c) for c in P]
+                if Q != list(P) and Q not in out:
+                    out.append(Q)
+        return out
+    pl4 = permuted_labellings(ss.set_partitions(4))
+    pl3 = permuted_labellings(parts3)
+    for tag, W in (und4[::9] if not thorough else und4[::4]):
+        for ci in pl4:
+            add('modularity_finetune_und', tag, W, gamma=1, ci=ci)
+            add('community_louvain', tag, W, gamma=1, B='modularity', ci=ci)
+    for tag, W in dir3[::7]:
+        for ci in pl3:
+            add('modularity_finetune_dir', tag, W, gamma=1, ci=ci)
+    for tag, W in sg[::5]:
+        for ci in (pl4 if len(W) == 4 else pl3):
+            add('modularity_finetune_und_sign', tag, W, gamma=1, qtype='sta', ci=ci)
+    for tag, W in sg3[:3]:
+        for ci in pl3:
+            add('modularity_probtune_und_sign', tag, W, gamma=1, qtype='sta', ci=ci, p=0.45)
+    for tag, W in dir3[::5]:
+        for ci in ([0, 0, 1], [7, 30, 7]):
+            add('modularity_finetune_dir', tag, W, gamma=1, ci=ci)
+        for g in (0.5, 3):
+            add('modularity_louvain_dir', tag, W, gamma=g, hierarchy=True)
+            add('modularity_finetune_dir', tag, W, gamma=g, ci=None)
+    for tag, W in sg[::7]:
+        for ci in ([0, 0, 1, 1], [7, 30, 7, 30])[:2] if len(W) == 4 else ([0, 0, 1], [7, 30, 7]):
+            add('modularity_finetune_und_sign', tag, W, gamma=1, qtype='sta', ci=ci)
+            add('modularity_probtune_und_sign', tag, W, gamma=1, qtype='sta', ci=ci, p=0.45)
     W = named['two_dtriangles_shared5']
     add('modularity_louvain_dir', 'two_dtriangles_shared5', W, gamma=1, hierarchy=True)
     add('community_louvain', 'two_dtriangles_shared5', W, gamma=1, B='modularity', ci=None)
